@@ -370,6 +370,9 @@ func (tm *TreeMarshal) MakeTreeFromList(parent *TreeNode, ro *Roster) (*TreeNode
 	if idx < 0 {
 		return nil, xerrors.New("didn't find node in roster")
 	}
+	if ent.Public == nil {
+		return nil, xerrors.New("node in roster has no public key")
+	}
 	tn := &TreeNode{
 		Parent:         parent,
 		ID:             tm.TreeNodeID,
